@@ -3,7 +3,8 @@
    bridge "nothing renamed => no class applies". *)
 From Coq Require Import List Bool String ZArith NArith.
 From TS Require Import Model.Str Model.Outcome Model.Unicode Model.Types Model.Parse Model.Reconcile
-                       Model.Lang.Common Model.Lang.Decl Model.Lang.TypeScript Model.Lang.Kotlin Model.Lang.Scala Model.Lang.Go Spec.C09Spec.
+                       Model.Lang.Common Model.Lang.Decl Model.Lang.TypeScript Model.Lang.Kotlin Model.Lang.Scala Model.Lang.Go
+                       Model.Lang.Swift Model.Lang.Python Spec.C09Spec.
 From TS Require Import Proofs.C09Common Proofs.C09Recon.
 Import ListNotations.
 Local Open Scope string_scope.
@@ -95,6 +96,17 @@ Lemma c09_go_acronym_target_refuted :
   c09_witness Go [] [lit "id"] w_prog (go_file_decls uc_exec (w_go [lit "id"]) (c09_reconciled w_prog)) "C09-go-acronym-target" = true.
 Proof. vm_compute. reflexivity. Qed.
 
+(* enum E { XyZwQr { a: u32 }, Other(u32) } under uppercase_acronyms = [xy, yZw, wQr]: the helper struct is
+   defined EXYZWQrInner (two passes over the whole name) and referred to as EXYZWQRInner (the variant name
+   gets a third pass) *)
+Definition w_prog_acr : parsed :=
+  w_parsed [] [ EAlgebraic (lit "type") (lit "content")
+                  (w_esh "E" "E" [] [VAnon [w_field "a" (RPrim PU32)] (w_vsh "XyZwQr"); VTuple (RPrim PU32) (w_vsh "Other")]) ] [] [].
+Definition w_acrs : list str := [lit "xy"; lit "yZw"; lit "wQr"].
+Lemma c09_go_acronym_inner_refuted :
+  c09_witness Go [] w_acrs w_prog_acr (go_file_decls uc_exec (w_go w_acrs) (c09_reconciled w_prog_acr)) "C09-go-acronym-inner" = true.
+Proof. vm_compute. reflexivity. Qed.
+
 (* ---------------------------------------------------------------- non-vacuity *)
 (* a program with mutual references, a generic struct, a tagged enum with a struct variant, an alias,
    one renamed struct, under a prefix: inside the domain, in no class, and the model generates it *)
@@ -112,6 +124,28 @@ Example C09_Kotlin_nonvacuous_ex :
              (8 <=? List.length (c9_refs (c09_observe Kotlin fd)))%nat = true /\ good_C09 Kotlin (lit "KP") w_clean (c09_observe Kotlin fd) = true.
 Proof. split; [vm_compute; reflexivity|]. split; [vm_compute; reflexivity|]. eexists. split; [vm_compute; reflexivity|]. split; vm_compute; reflexivity. Qed.
 
+(* the same program for the other five back ends: inside the domain, in no class, generated by the model
+   with at least 8 references, and judged good *)
+Definition w_sw : sw_config := {| sw_prefix := lit "OP"; sw_type_mappings := []; sw_default_decorators := []; sw_default_generic_constraints := [];
+                                  sw_codablevoid_constraints := []; sw_no_version_header := true; sw_version := [] |}.
+Definition w_py : py_config := {| py_type_mappings := []; py_no_version_header := true; py_version := [] |}.
+Definition c09_nonvacuous (L : lang) (pfx : str) (pd : parsed) (out : outcome file_decls) : bool :=
+  dom_C09 L pfx pd && match known_C09 L pfx [] pd with None => true | Some _ => false end &&
+  match out with
+  | Ok fd => (8 <=? List.length (c9_refs (c09_observe L fd)))%nat && good_C09 L pfx pd (c09_observe L fd)
+  | _ => false
+  end.
+Example C09_TypeScript_nonvacuous_ex : c09_nonvacuous TypeScript [] w_clean (ts_file_decls uc_exec w_ts (c09_reconciled w_clean)) = true.
+Proof. vm_compute. reflexivity. Qed.
+Example C09_Scala_nonvacuous_ex : c09_nonvacuous Scala [] w_clean (sc_file_decls uc_exec w_sc (c09_reconciled w_clean)) = true.
+Proof. vm_compute. reflexivity. Qed.
+Example C09_Python_nonvacuous_ex : c09_nonvacuous Python [] w_clean (py_file_decls uc_exec w_py (c09_reconciled w_clean)) = true.
+Proof. vm_compute. reflexivity. Qed.
+Example C09_Swift_nonvacuous_ex : c09_nonvacuous Swift (lit "OP") w_clean (sw_file_decls uc_exec w_sw (c09_reconciled w_clean)) = true.
+Proof. vm_compute. reflexivity. Qed.
+Example C09_Go_nonvacuous_ex : c09_nonvacuous Go [] w_clean (go_file_decls uc_exec (w_go []) (c09_reconciled w_clean)) = true.
+Proof. vm_compute. reflexivity. Qed.
+
 (* ---------------------------------------------------------------- nothing renamed => no class *)
 Lemma c09_first_all_none {A} (l : list (option A)) : (forall x, In x l -> x = None) -> c09_first l = None.
 Proof.
@@ -125,7 +159,7 @@ Lemma c09_no_rename_known (L : lang) (pfx : str) (pd : parsed) :
   known_C09 L pfx [] pd = None.
 Proof.
   intros Hren Hinl. unfold known_C09. apply c09_first_all_none. intros x Hx. unfold c09_classes in Hx.
-  apply in_app_iff in Hx as [Hx|Hx]; [|apply in_app_iff in Hx as [Hx|Hx]].
+  apply in_app_iff in Hx as [Hx|Hx]; [|apply in_app_iff in Hx as [Hx|Hx]; [|apply in_app_iff in Hx as [Hx|Hx]]].
   - apply in_flat_map in Hx as (tp & _ & Hx). unfold c09_tpos_classes in Hx. apply in_flat_map in Hx as (fi & _ & Hx).
     destruct (c09_lookup pd (snd fi)) as [e|] eqn:Hlk; [|destruct Hx].
     destruct (c09_lookup_in pd _ e Hlk) as (He & _ & _).
@@ -136,4 +170,8 @@ Proof.
       unfold c09_parent_site_class, c09_inner_site_class; rewrite ?K; try rewrite (Hren e He); try reflexivity;
       destruct (c09_parent_which L _); reflexivity.
   - apply in_map_iff in Hx as (a & <- & Ha). apply Hinl. exact Ha.
+  - (* no acronyms: the conversion is the identity *)
+    apply in_flat_map in Hx as (e & _ & Hx). cbv zeta in Hx. apply in_flat_map in Hx as (v & _ & Hx).
+    destruct v as [?|? ?|fs vsh]; [destruct Hx|destruct Hx|]. destruct Hx as [<-|[]].
+    unfold c09_inner_acronym_class, c09_acr_conv. destruct L; try reflexivity. cbn [fold_left]. rewrite str_eqb_refl. reflexivity.
 Qed.
